@@ -66,6 +66,7 @@ pub struct Weights {
     pub anew: u32,
     pub acall: u32,
     pub adrop: u32,
+    pub reent: u32,
 }
 
 impl Default for Weights {
@@ -98,6 +99,7 @@ impl Default for Weights {
             anew: 0,
             acall: 0,
             adrop: 0,
+            reent: 0,
         }
     }
 }
@@ -128,6 +130,9 @@ pub struct Profile {
     pub probe_scopes: bool,
     /// per mille: allow a scope on a span that already is this thread's local parent
     pub p_reguard: u32,
+    /// per mille per generated operation: a scope on a span that belongs to no trace (created from
+    /// an empty or all-noop parent set, or a no-op span) with probes and local operations inside
+    pub p_traceless_scope: u32,
 }
 
 impl Default for Profile {
@@ -151,6 +156,7 @@ impl Default for Profile {
             p_enter_on_poll: 300,
             probe_scopes: false,
             p_reguard: 60,
+            p_traceless_scope: 8,
         }
     }
 }
@@ -326,6 +332,7 @@ impl<'a> Gen<'a> {
             w.anew,
             if !adapters.is_empty() && self.depth_call < 2 { w.acall } else { 0 },
             if !adapters.is_empty() { w.adrop } else { 0 },
+            if self.depth_call < 2 { w.reent } else { 0 },
         ];
         if weights.iter().all(|x| *x == 0) {
             return None;
@@ -441,9 +448,66 @@ impl<'a> Gen<'a> {
                 let a = *self.rng.pick(&adapters);
                 return Some(self.gen_call(t, a));
             }
-            _ => Op::ADrop { a: *self.rng.pick(&adapters) },
+            26 => Op::ADrop { a: *self.rng.pick(&adapters) },
+            _ => return self.gen_reent(t),
         };
         Some(op)
+    }
+
+    /// A closure-taking operation whose closure itself runs a few operations.
+    fn gen_reent(&mut self, t: usize) -> Option<Op> {
+        let alive = self.m().alive_spans();
+        let top_is_local = matches!(self.m().threads[t].frames.last(), Some(Frame::Local { .. }))
+            && self.m().threads[t].frames.len() > self.nested_floor;
+        let mut hosts: Vec<u8> = vec![1, 4, 5];
+        if !alive.is_empty() {
+            hosts.push(0);
+            hosts.push(3);
+        }
+        if top_is_local {
+            hosts.push(2);
+        }
+        let n = self.rng.range(1, 3) as u8;
+        let k0 = new_keys(n);
+        let host = match *self.rng.pick(&hosts) {
+            0 => Op::AddProps { span: *self.rng.pick(&alive), n, k0 },
+            1 => Op::LAddProps { n, k0 },
+            2 => Op::LWithProps { n, k0 },
+            3 => Op::Child { l: new_span_label(), parents: vec![*self.rng.pick(&alive)], single: true, np: n, k0 },
+            4 => Op::ChildLocal { l: new_span_label(), np: n, k0 },
+            _ => Op::LEnter { l: new_local_label(), np: n, k0 },
+        };
+        let saved_model = self.prog.model.clone();
+        let saved_floor = self.nested_floor;
+        let saved_ctx_ops = self.ctx_ops.clone();
+        self.prog.model.set_thread(t);
+        let runs = self.prog.model.scratch_begin_reent(t, &host);
+        let mut steps = vec![];
+        if runs {
+            self.nested_floor = self.prog.model.threads[t].frames.len();
+            self.depth_call += 1;
+            let k = self.rng.range(1, 4);
+            for _ in 0..k {
+                if let Some(op) = self.gen_op(t, true) {
+                    let flat = self.prog.model.apply(t, &op);
+                    if matches!(op, Op::FromSpan { .. } | Op::CurLocal) {
+                        self.ctx_ops.push(flat);
+                    }
+                    steps.push(op);
+                }
+            }
+            while self.prog.model.threads[t].frames.len() > self.nested_floor {
+                self.prog.model.apply(t, &Op::Pop);
+                steps.push(Op::Pop);
+            }
+            self.depth_call -= 1;
+        }
+        self.nested_floor = saved_floor;
+        self.prog.model = saved_model;
+        let keep: Vec<usize> = self.ctx_ops.iter().copied().filter(|f| !saved_ctx_ops.contains(f)).collect();
+        self.ctx_ops = saved_ctx_ops;
+        self.pending_ctx = keep;
+        Some(Op::Reent { host: Box::new(host), steps })
     }
 
     fn gen_call(&mut self, t: usize, a: u32) -> Op {
@@ -481,6 +545,12 @@ impl<'a> Gen<'a> {
         self.in_call.push(a);
         let n = self.rng.range(0, 6);
         let mut steps = vec![];
+        if ad.poll_name.is_some() {
+            // fingerprint: lets the oracle tell the enter_on_poll records of one adapter apart
+            let op = Op::LAddProps { n: 1, k0: new_keys(1) };
+            self.prog.model.apply(t, &op);
+            steps.push(op);
+        }
         for _ in 0..n {
             if let Some(op) = self.gen_op(t, true) {
                 let flat = self.prog.model.apply(t, &op);
@@ -513,7 +583,7 @@ impl<'a> Gen<'a> {
         if matches!(op, Op::FromSpan { .. } | Op::CurLocal) {
             self.ctx_ops.push(flat);
         }
-        if matches!(op, Op::ACall { .. }) {
+        if matches!(op, Op::ACall { .. } | Op::Reent { .. }) {
             let p = std::mem::take(&mut self.pending_ctx);
             self.ctx_ops.extend(p);
         }
@@ -554,6 +624,39 @@ impl<'a> Gen<'a> {
         }
     }
 
+    /// A local-parent scope on a span that belongs to no trace, with context probes, a child
+    /// span, a local span and local attachments inside it.
+    fn traceless_scope(&mut self, t: usize) {
+        let l = new_span_label();
+        let kind = self.rng.below(4);
+        match kind {
+            0 => self.push(t, Op::Child { l, parents: vec![], single: false, np: 0, k0: 0 }),
+            1 | 2 => {
+                let n1 = new_span_label();
+                self.push(t, Op::Noop { l: n1 });
+                let mut parents = vec![n1];
+                if kind == 2 {
+                    let n2 = new_span_label();
+                    self.push(t, Op::Noop { l: n2 });
+                    parents.push(n2);
+                }
+                self.push(t, Op::Child { l, parents, single: false, np: 1, k0: new_keys(1) });
+            }
+            _ => self.push(t, Op::Noop { l }),
+        }
+        self.push(t, Op::Guard { span: l });
+        self.push(t, Op::CurLocal);
+        self.push(t, Op::ChildLocal { l: new_span_label(), np: 0, k0: 0 });
+        self.push(t, Op::LEnter { l: new_local_label(), np: 1, k0: new_keys(1) });
+        self.push(t, Op::LAddEvent { e: new_event(), np: 0, k0: 0 });
+        self.push(t, Op::CurLocal);
+        self.push(t, Op::FromSpan { span: l });
+        self.push(t, Op::Pop);
+        if self.rng.chance(1, 2) {
+            self.push(t, Op::Pop);
+        }
+    }
+
     /// Close everything that is still open so that the program ends quiescent.
     pub fn close_out(&mut self) {
         for t in 0..self.prog.nthreads {
@@ -584,6 +687,10 @@ impl<'a> Gen<'a> {
         let n = self.rng.range(self.pf.ops.0, self.pf.ops.1);
         for _ in 0..n {
             let t = self.rng.below(self.prog.nthreads);
+            if self.rng.chance(self.pf.p_traceless_scope, 1000) && self.m().threads[t].frames.len() < self.pf.max_depth {
+                self.traceless_scope(t);
+                continue;
+            }
             if let Some(op) = self.gen_op(t, false) {
                 self.push(t, op);
             }
